@@ -144,7 +144,81 @@ def scenarios():
     code = ("import json\nfrom props.C17_native import legacy\nprint('@@'+json.dumps(legacy(), default=str))")
     p = subprocess.run([sys.executable, "-c", code], capture_output=True, text=True, env=dict(os.environ))
     failures += json.loads(p.stdout.rsplit("@@", 1)[1]) if "@@" in p.stdout else [{"config": "legacy", "error": p.stderr[-500:]}]
-    return {"cases": len(CONFIGS) + 1, "failures": failures}
+    for fn_ in ("legacy_calls", "rest_mixin_bindings"):
+        code = ("import json\nfrom props.C17_native import %s as f\nprint('@@'+json.dumps(f(), default=str))" % fn_)
+        p = subprocess.run([sys.executable, "-c", code], capture_output=True, text=True, env=dict(os.environ))
+        failures += json.loads(p.stdout.rsplit("@@", 1)[1]) if "@@" in p.stdout else [{"config": fn_, "error": p.stderr[-500:]}]
+    return {"cases": len(CONFIGS) + 3, "failures": failures}
+
+
+def legacy_calls():
+    """add-iam-methods without the IAM mixin in the YAML: the three RPCs must be *callable* on the sync and the asyncio client."""
+    from vf import genlab as G
+    from google.auth.credentials import AnonymousCredentials
+    from google.iam.v1 import iam_policy_pb2, policy_pb2
+    from google.cloud.location import locations_pb2
+    failures = []
+    api, res = G.generate(files(), "autogen-snippets=false,add-iam-methods", service_yaml=yaml_for([], []), extra_dep_modules=(iam_policy_pb2, locations_pb2))
+    with G.materialised(res):
+        from acme import lab_v1
+        from acme.lab_v1.services.lab.transports import LabGrpcTransport, LabGrpcAsyncIOTransport
+        seen = []
+        replies = {"SetIamPolicy": policy_pb2.Policy(version=3), "GetIamPolicy": policy_pb2.Policy(version=3),
+                   "TestIamPermissions": iam_policy_pb2.TestIamPermissionsResponse(permissions=["p"])}
+
+        def handler(kind, path, raw, md, deser, timeout):
+            seen.append(path)
+            r = replies[path.rsplit("/", 1)[1]]
+            return deser(r.SerializeToString()) if deser else r
+        client = lab_v1.LabClient(transport=LabGrpcTransport(channel=G.fake_channel(handler), credentials=AnonymousCredentials()))
+        aclient = lab_v1.LabAsyncClient(transport=LabGrpcAsyncIOTransport(channel=G.fake_aio_channel(handler), credentials=AnonymousCredentials()))
+        for m in ("SetIamPolicy", "GetIamPolicy", "TestIamPermissions"):
+            for which, cl in (("sync", client), ("async", aclient)):
+                seen.clear()
+                try:
+                    r = getattr(cl, snake(m))(request={"resource": "things/1"})
+                    if which == "async":
+                        r = asyncio.run(_aw(r))
+                    if seen != [f"/google.iam.v1.IAMPolicy/{m}"] or r != replies[m]:
+                        failures.append({"option": "add-iam-methods", "method": m, "client": which, "wire": list(seen), "returned": repr(r)[:80]})
+                except Exception as e:      # noqa
+                    f_ = {"option": "add-iam-methods", "method": m, "client": which, "what": "the legacy IAM method cannot be called", "error": repr(e)[:200]}
+                    if which == "async" and isinstance(e, KeyError):
+                        f_["known"] = "async-legacy-iam-not-wrapped"
+                    failures.append(f_)
+    return failures
+
+
+def rest_mixin_bindings():
+    """Over REST a mixin method carries every binding of its YAML rule (primary and additional), in order."""
+    import importlib
+    from vf import genlab as G
+    from google.iam.v1 import iam_policy_pb2
+    from google.cloud.location import locations_pb2
+    failures = []
+    y = yaml_for(["google.cloud.location.Locations", "google.iam.v1.IAMPolicy"], ["google.cloud.location.Locations.GetLocation", "google.iam.v1.IAMPolicy.SetIamPolicy"])
+    for r in y["http"]["rules"]:
+        if r["selector"].endswith("GetLocation"):
+            r["additional_bindings"] = [{"get": "/v1/{name=organizations/*/locations/*}"}, {"get": "/v1/{name=folders/*/locations/*}"}]
+        if r["selector"].endswith("SetIamPolicy"):
+            r["additional_bindings"] = [{"post": "/v1/{resource=boxes/*}:setIamPolicy", "body": "*"}]
+    api, res = G.generate(files(), "autogen-snippets=false,transport=grpc+rest", service_yaml=y, extra_dep_modules=(iam_policy_pb2, locations_pb2))
+    with G.materialised(res):
+        tr = importlib.import_module("acme.lab_v1.services.lab.transports.rest_base")
+        base = tr._BaseLabRestTransport
+        for rule in y["http"]["rules"]:
+            m = rule["selector"].rsplit(".", 1)[1]
+            want = []
+            for b in [rule] + rule.get("additional_bindings", []):
+                verb = next(v for v in ("get", "post", "put", "delete", "patch") if v in b)
+                e = {"method": verb, "uri": b[verb]}
+                if b.get("body"):
+                    e["body"] = b["body"]
+                want.append(e)
+            got = getattr(base, "_Base" + m)._get_http_options()
+            if got != want:
+                failures.append({"mixin": m, "what": "REST bindings of the mixin differ from the YAML rule", "got": got, "want": want})
+    return failures
 
 
 def legacy():
